@@ -247,7 +247,7 @@ def _sub(clauses, old, new):
 
 def _gen_init(rng, size):
     from cell_type_mapper.taxonomy.taxonomy_tree import TaxonomyTree
-    return dict(self=TaxonomyTree.__new__(TaxonomyTree), data=mutate_tree(rng, gen_tree(rng, size), findings=False))
+    return dict(self=TaxonomyTree.__new__(TaxonomyTree), data=mutate_tree(rng, gen_tree(rng, size)))
 
 
 contract(
@@ -256,8 +256,7 @@ contract(
     native=dict(gen=_gen_init, env=TREE_ENV),
     params=dict(self='TaxTree', data='Tree'),
     returns='None', mutates=['self'], returns_alias='self',    # alias: value of `TaxonomyTree(...)`
-    requires=["'hierarchy' not in data or 'hierarchy' not in data['hierarchy']",
-              "'hierarchy' not in data or len(data['hierarchy']) >= 1"],      # depth >= 1, as the validator
+    requires=["'hierarchy' not in data or 'hierarchy' not in data['hierarchy']"],
     # the stored blob is a copy of the argument and the class invariant holds (the two clauses of
     # wf_tree that validate_taxonomy_tree cannot establish - S-9, S-10 - are inherited from its
     # contract, where they are reported)
